@@ -20,7 +20,7 @@ func init() {
 		ThoroughGOOS: []string{"darwin", "freebsd", "openbsd", "windows"},
 		Explanation: "Lock discipline of live reconfiguration (RacerD/Eraser-style, type-based). For the structures named by the property (DNS server and its configuration, client registry, filter, query log, statistics, DHCPv4 server): " +
 			"(G) guarded-by: every field that is written after start-up has one lock held at all of its accesses (write mode at writes), using intra-procedural must-locksets plus must-entry locksets propagated over the VTA call graph; (X) re-entrancy: no lock is acquired while the same lock is held or may be held on entry through some call chain — including read-after-read on an RWMutex, which deadlocks as soon as a writer queues in between; " +
-			"(O) order: the lock-order graph built from all acquisitions (local and may-entry locksets) has no cycle; (L) no leak: a slice/map kept under a lock is not handed out of the critical section un-cloned by a function that takes the lock itself. " +
+			"(O) order: the lock-order graph built from all acquisitions (local and may-entry locksets) has no cycle; (L) no leak: a slice/map kept under a lock is not handed out of the critical section un-cloned by a function that takes the lock itself; (A) a field accessed through sync/atomic functions is accessed plainly (also as part of a whole-struct copy) only where a common lock orders the two. " +
 			"Not decided: absence of all data races (instances of one type are conflated, third-party internals, happens-before through channels and sync.Once are not modelled), panics in general, well-formedness and latency of responses.",
 		RuleText:    "Must-lockset dataflow per function, must/may entry locksets by fixpoint over the VTA call graph, field accesses from SSA FieldAddr users.",
 		Assumptions: []string{"lock and field identity are type-based", "functions reachable only from start-up (table of init-phase callers) run before any concurrency", "VTA resolves the func-valued fields and interfaces on the DNS path"},
@@ -214,6 +214,82 @@ func runC05(c *Ctx) {
 	r.Info["fields_written_after_startup"] = nWritten
 	r.Info["fields_without_documented_guard"] = undocumented
 	r.Floor("C05-G", "guarded-fields-with-live-writes", nDoc, 15)
+
+	// A: a field that is accessed through sync/atomic functions somewhere must be accessed atomically everywhere
+	// (including whole-struct copies)
+	type atomicSite struct {
+		where string
+		write bool
+		held  core.LockSet
+	}
+	atomicFields := map[core.FieldRef][]atomicSite{}
+	for fn := range w.Funcs {
+		if isInitFn(fn) {
+			continue
+		}
+		for _, call := range core.Calls(fn) {
+			callee := call.Common.StaticCallee()
+			if callee == nil || callee.Pkg == nil || callee.Pkg.Pkg.Path() != "sync/atomic" || len(call.Common.Args) == 0 {
+				continue
+			}
+			if fr, ok := core.FieldOfAddr(call.Common.Args[0]); ok && c05Tracked[fr.Type] {
+				atomicFields[fr] = append(atomicFields[fr], atomicSite{
+					where: fmt.Sprintf("%s at %s", core.FuncKey(fn), p.InstrPos(call.Instr)),
+					write: !strings.HasPrefix(callee.Name(), "Load"),
+					held:  w.HeldAt(fn, call.Instr),
+				})
+			}
+		}
+	}
+	r.Info["fields_accessed_atomically"] = len(atomicFields)
+	for fr, sites := range atomicFields {
+		sort.Slice(sites, func(i, j int) bool { return sites[i].where < sites[j].where })
+		accs := byField[fr]
+		bad := 0
+		per := map[string]bool{}
+		if accs != nil {
+			for _, a := range accs.accs {
+				if isInitFn(a.Fn) || initOnly[a.Fn] {
+					continue
+				}
+				// a plain access is ordered with an atomic one only through a common lock (one side in write mode)
+				var against *atomicSite
+				for i := range sites {
+					b := &sites[i]
+					if !a.Write && !b.write {
+						continue
+					}
+					if sharesLock(a, core.Access{Held: b.held, Write: b.write}) {
+						continue
+					}
+					against = b
+					break
+				}
+				if against == nil {
+					continue
+				}
+				kind := "read"
+				if a.Write {
+					kind = "write"
+				}
+				fk := core.FuncKey(a.Fn)
+				if per[fk+kind] {
+					continue
+				}
+				per[fk+kind] = true
+				bad++
+				how := "plain " + kind
+				if a.Whole {
+					how = "whole-struct copy (" + kind + ")"
+				}
+				r.Fail("C05-A", fmt.Sprintf("mixed-atomic:%s:%s@%s", fr, kind, fk), p.InstrPos(a.Instr),
+					fmt.Sprintf("%s of %s (held: %s) races with the sync/atomic access in %s (held: %s): no common lock orders them", how, fr, a.Held, against.where, against.held))
+			}
+		}
+		if bad == 0 {
+			r.Ok("C05-A", "atomic-or-ordered:"+fr.String(), "-", fmt.Sprintf("every plain access shares a lock with the %d sync/atomic access site(s) it could conflict with", len(sites)))
+		}
+	}
 
 	// L: a slice or map kept under a lock must not be handed out of the critical section as a raw header by a
 	// function that takes (and releases) the lock itself, when some writer changes it in place
